@@ -584,6 +584,7 @@ func caseAt(seed int64, i int) *Case {
 		if g.chance(50) {
 			c.Req.St = [][]string{g.items()}
 		}
+		c.Req.Lp = g.n(len(lpTable))
 		c.data.List = []ListData{}
 		names := map[string]bool{}
 		for j, n := 0, g.n(6); j < n; j++ {
